@@ -355,18 +355,33 @@ def gen_calls(rng, fi, n):
 
 # ---------------------------------------------------------------- Coq terms
 
+def zl(z):
+    """Z literal; big numbers in hexadecimal (Coq 8.16 interprets long decimal numerals ~3x slower)"""
+    z = int(z)
+    t = '%d' % abs(z) if abs(z) < 65536 else hex(abs(z))
+    return '(-%s)' % t if z < 0 else t
+
+
+def s_num(s):
+    """string -> the base-256 number that C07.Model.sz decodes (latin-1, no NUL; '' -> 0)"""
+    if not all(0 < ord(ch) < 256 for ch in s):
+        raise ValueError('string %r cannot be encoded for the Coq model (non latin-1 or NUL)' % (s,))
+    return zl(int.from_bytes(s.encode('latin-1'), 'big'))
+
+
 def s_lit(s):
-    """string -> Coq term of type str; compact base-256 literal for plain ASCII, explicit code list otherwise"""
-    if s and all(0 < ord(ch) < 256 for ch in s):
-        return '(sz %d)' % int.from_bytes(s.encode('latin-1'), 'big')
-    return C.coq_list(['%d' % ord(ch) for ch in s])
+    return '(sz %s)' % s_num(s)
+
+
+def nums(strings):
+    return C.coq_list([s_num(x) for x in strings])
 
 
 def res_term(r):
     if 'val' in r:
-        return '(RVal %s)' % C.zlit(r['val'])
+        return '(RVal %s)' % zl(r['val'])
     if 'names' in r:
-        return '(RNames %s)' % C.coq_list([s_lit(x) for x in r['names']])
+        return '(rNames %s)' % nums(r['names'])
     if 'bools' in r:
         return '(RBools %s)' % C.coq_list([C.boollit(x) for x in r['bools']])
     if r.get('err') == 'KeyError':
@@ -374,29 +389,58 @@ def res_term(r):
     return 'ROther'
 
 
+def labels_of(c):
+    return [c['label']] if 'label' in c else c.get('labels', [])
+
+
 def call_term(c):
+    """a term of type call (used by explain)"""
     k = c['k']
     g = s_lit(c['g'])
-    labs = C.coq_list([s_lit(x) for x in ([c['label']] if 'label' in c else c.get('labels', []))])
+    labs = '(szs %s)' % nums(labels_of(c))
     if k == 'val':
         return '(KVal %s %s)' % (g, labs)
     if k == 'name':
-        return '(KName %s %s %s)' % (g, C.zlit(c['v']), C.boollit(c.get('concat')))
+        return '(KName %s %s %s)' % (g, zl(c['v']), C.boollit(c.get('concat')))
     if k == 'exist':
         return '(KExist %s %s %s %s)' % (g, labs, C.boollit(c['fe']), C.boollit(c['we']))
     if k == 'vnv':
-        return '(KVNV %s %s)' % (g, C.zlit(c['v']))
+        return '(KVNV %s %s)' % (g, zl(c['v']))
     if k == 'nvn':
         return '(KNVN %s %s)' % (g, labs)
     raise ValueError(k)
 
 
+def call_res_term(c, r):
+    """a term of type call * res built with the compact constructors of C07.Model"""
+    k = c['k']
+    g = s_num(c['g'])
+    rt = res_term(r)
+    if k == 'val':
+        return '(cVal %s %s %s)' % (g, nums(labels_of(c)), rt)
+    if k == 'name':
+        return '(cName %s %s %s %s)' % (g, zl(c['v']), C.boollit(c.get('concat')), rt)
+    if k == 'exist':
+        return '(cExist %s %s %s %s %s)' % (g, nums(labels_of(c)), C.boollit(c['fe']), C.boollit(c['we']), rt)
+    if k == 'vnv':
+        return '(cVNV %s %s %s)' % (g, zl(c['v']), rt)
+    if k == 'nvn':
+        return '(cNVN %s %s %s)' % (g, nums(labels_of(c)), rt)
+    raise ValueError(k)
+
+
+def rows_term(rows):
+    return C.coq_list(['R %s %s %s' % (s_num(f), zl(b), s_num(l)) for f, b, l in rows])
+
+
+def aliases_term(aliases):
+    return C.coq_list(['A %s %s' % (s_num(f), s_num(a)) for f, a in aliases])
+
+
 def case_term(up, rows, aliases, load, calls, results):
-    rt = C.coq_list(['(%s, %s, %s)' % (s_lit(f), C.zlit(b), s_lit(l)) for f, b, l in rows])
-    at = C.coq_list(['(%s, %s)' % (s_lit(f), s_lit(a)) for f, a in aliases])
     loaded = 0 if load.get('ok') else (1 if load.get('err') == 'KeyError' else 2)
-    ct = C.coq_list(['(%s, %s)' % (call_term(c), res_term(r)) for c, r in zip(calls, results)])
-    return '(Case %s %s %s %d %s)' % (C.boollit(up), rt, at, loaded, ct)
+    ct = C.coq_list([call_res_term(c, r) for c, r in zip(calls, results)])
+    return '(Case %s %s %s %d %s)' % (C.boollit(up), rows_term(rows), aliases_term(aliases), loaded, ct)
 
 
 HEADER = '''From Coq Require Import ZArith List Bool. Import ListNotations.
@@ -465,7 +509,10 @@ def correspond(ctx, proof_ok=True):
         files.append(gen_file(rng))
     for fi in files:
         fi['calls'] = gen_calls(rng, fi, ncalls)
+    import time
+    t_impl = time.time()
     outs, pydl_file = build_and_run(ctx, files, None)
+    t_impl = time.time() - t_impl
     ctx.coverage['pydl_file'] = pydl_file
 
     # which load model matches the code?  the translator says; if it did not recognise the source, try both
@@ -518,8 +565,7 @@ def correspond(ctx, proof_ok=True):
                 'rows_read': out['rows'], 'aliases_read': out['aliases'], 'load': out['load'], 'load_model_up': up,
                 'dict_keys_after_load': out.get('keys')}
         if vs[0] != 0:
-            sig = 'C07:load:file=%s:impl=%s:%s' % (fi['style'] + ('' if fi['kind'] == 'wf' else ',illformed'),
-                                                  outcome(out['load']), 'property' if vs[0] & 2 else 'model')
+            sig = 'C07:load:file=%s:impl=%s:%s' % (fi['style'], outcome(out['load']), 'property' if vs[0] & 2 else 'model')
             rep = dict(base, kind='failing-input' if vs[0] & 2 else 'broken-correspondence', verdict=vs[0], call=None,
                        item='C07.Model.load', meaning='set_maskbits on a well-formed file must return a dictionary' if vs[0] & 2 else
                        'model of set_maskbits and the code disagree on whether the load succeeds')
@@ -529,8 +575,7 @@ def correspond(ctx, proof_ok=True):
                 continue
             tag, c = fi['calls'][j]
             r = out['results'][j]
-            sig = 'C07:%s:file=%s:impl=%s:%s' % (c['k'], fi['style'] + ('' if fi['kind'] == 'wf' else ',illformed'), outcome(r),
-                                                'property' if cv & 2 else 'model')
+            sig = 'C07:%s:file=%s:impl=%s:%s' % (c['k'], fi['style'], outcome(r), 'property' if cv & 2 else 'model')
             if sig in findings and findings[sig][0] <= len(out['rows']):
                 continue
             rep = dict(base, kind='failing-input' if cv & 2 else 'broken-correspondence', call=c, call_tag=tag, impl_result=r, verdict=cv,
@@ -544,8 +589,8 @@ def correspond(ctx, proof_ok=True):
     def explain(rep):
         if rep.get('call') is None:
             return None
-        rows_t = C.coq_list(['(%s, %s, %s)' % (s_lit(f), C.zlit(b), s_lit(l)) for f, b, l in rep['rows_read']])
-        al_t = C.coq_list(['(%s, %s)' % (s_lit(f), s_lit(a)) for f, a in rep['aliases_read']])
+        rows_t = rows_term(rep['rows_read'])
+        al_t = aliases_term(rep['aliases_read'])
         txt = cc.show('explain %s %s %s %s' % (C.boollit(up), rows_t, al_t, rep['coq_call']), tag='explain%s' % C.sha(rep['coq_call']))
         return decode_strings(' '.join(txt.split()))[-1500:]
     order = sorted(findings.items())
@@ -591,6 +636,7 @@ def correspond(ctx, proof_ok=True):
         'model_disagreements': sum(1 for _, v in bad_files if v & 1),
         'spec_violations': sum(1 for _, v in bad_files if v & 2),
         'coq_eval_s': round(cc.coq_seconds, 1),
+        'impl_s': round(t_impl, 1),
         'samples': [{'file_text': files[k]['text'][-600:], 'calls': [c for _, c in files[k]['calls'][:4]],
                      'impl': outs[k]['results'][:4]} for k in usable[:2]],
     })
